@@ -68,10 +68,13 @@ func c17PeerIdx(id peer.ID) int {
 
 // c17Op is one harness-level operation (the replayable form of a sequence).
 type c17Op struct {
-	Op string `json:"op"` // add remove get cooldown cleanup tick wait cancel
+	Op string `json:"op"` // add remove get cooldown cleanup tick wait cancel | window (zz_verif_c17_poolfine_test.go)
 	Ps []int  `json:"ps,omitempty"`
 	P  int    `json:"p"`
 	D  int    `json:"d,omitempty"`
+	// window: the clock moves to the head item's expiry, callback number Park of that expiry is held back while Work runs
+	Park int     `json:"park,omitempty"`
+	Work []c17Op `json:"work,omitempty"`
 }
 
 type c17Seq struct {
@@ -111,6 +114,7 @@ type c17PoolRun struct {
 	unstable     bool
 	aborted      bool
 	executed     []c17Op
+	windowed     bool // an expiry callback was held back in this history (zz_verif_c17_poolfine_test.go)
 }
 
 func c17NewPoolRun(r *zv.Run, seq c17Seq) *c17PoolRun {
@@ -277,6 +281,11 @@ func c17PoolInvariants(p *pool) string {
 // violation records an L3 finding with the sequence so far as its replay; the sequence ends there (what follows
 // would run on a pool whose state is already wrong).
 func (x *c17PoolRun) violation(sig, desc string) {
+	if x.windowed && strings.HasPrefix(sig, "pool-cooldown-") && sig != "pool-cooldown-not-released" {
+		// the same oracle ("offered while a cool-down younger than ttl exists"), reached through the window between an
+		// item leaving the queue and its callback
+		sig = "pool-cooldown-cut-short:expiry-window"
+	}
 	rep := x.seq
 	rep.Ops = append([]c17Op{}, x.executed...)
 	x.r.Violation(sig, desc, rep)
@@ -927,6 +936,8 @@ func TestVerifC17(t *testing.T) {
 		switch k.Kind {
 		case "pool-seq":
 			c17Pool(t, r)
+		case "pool-fine":
+			c17PoolFine(t, r)
 		case "mgr-seq":
 			c17Manager(t, r)
 		case "mgr-fine":
@@ -939,6 +950,7 @@ func TestVerifC17(t *testing.T) {
 		return
 	}
 	c17Pool(t, r)
+	c17PoolFine(t, r)
 	c17Manager(t, r)
 	deadlocked := false
 	if pn := zv.Recover(func() { deadlocked = c17Deadlock(t, r) }); pn != "" {
